@@ -37,48 +37,98 @@ Fixpoint brspine_geb (p : N) (b : setexpr) : bool :=
   | _ => true
   end.
 
-(** with trailing commas on, a comma followed by a reserved word ends the FROM list: the tables
-    after the first one are not named by such a word *)
-Definition later_names_ok (d : qdialect) (from : list (tref setexpr)) : bool :=
-  match from with
-  | [] => true
-  | _ :: r =>
-      forallb (fun t => match t with
-                        | TTable n _ => negb (trailing d && mem n (res_col d))
-                        | TDerived _ _ => true
-                        end) r
+(** with trailing commas on, a comma followed by a reserved word ends a list: the elements after
+    the first one do not start with such a word (tables of FROM, columns of USING (..) and of a CTE,
+    names of CTEs) *)
+Definition later_ok (d : qdialect) (w : qtok) : bool := negb (trailing d && mem w (res_col d)).
+
+Definition twj_head_ok (d : qdialect) (t : twj) : bool :=
+  match t with Twj (TTable n _) _ => later_ok d n | _ => true end.
+Definition later_names_ok (d : qdialect) (from : list twj) : bool :=
+  match from with [] => true | _ :: r => forallb (twj_head_ok d) r end.
+
+(** a column list: at least one column, words *)
+Definition cols_wf (d : qdialect) (cols : list qtok) : bool :=
+  match cols with
+  | [] => false
+  | _ :: r => forallb is_word cols && forallb (later_ok d) r
+  end.
+Definition ccols_wf (d : qdialect) (cols : list qtok) : bool :=
+  match cols with [] => true | _ => cols_wf d cols end.
+
+Definition jop_wf (d : qdialect) (o : jop) : bool :=
+  match o with
+  | JOp _ (JOn e) => ewf (base d) e
+  | JOp _ (JUsing cols) => cols_wf d cols
+  | _ => true
   end.
 
-Fixpoint bwf (d : qdialect) (b : setexpr) : bool :=
+(** a parenthesised join: what [parse_table_factor] builds a NestedJoin from (a table with at least
+    one join, or a nested join), and its first table is not named by a word that starts a query
+    (the parser tries a derived table first) *)
+Definition nested_ok (t : twj) : bool := nested_shape t && first_ok (first_of t).
+
+Definition cte_name (c : cte) : qtok := match c with Cte n _ _ => n end.
+(** WITH without RECURSIVE: the first CTE is not named RECURSIVE *)
+Definition with_names_ok (d : qdialect) (rc : bool) (ctes : list cte) : bool :=
+  match ctes with
+  | [] => false
+  | c :: r => (rc || negb (qtok_eqb (cte_name c) (QK KRecursive))) &&
+              forallb (fun c => later_ok d (cte_name c)) r
+  end.
+
+Fixpoint bwf (d : qdialect) (b : setexpr) {struct b} : bool :=
   match b with
   | BSelect _ items from wh gb hv =>
       match items with [] => false | _ => true end &&
       forallb (item_wf (base d)) items &&
-      forallb (fun t =>
-        match t with
-        | TTable n a => name_ok d n && optb is_word a
-        | TDerived (Query b' ob lim off) a => bwf d b' && tail_wf (base d) ob lim off && optb is_word a
-        end) from && later_names_ok d from &&
+      forallb (twj_wf d) from && later_names_ok d from &&
       optb (ewf (base d)) wh && forallb (ewf (base d)) gb && optb (ewf (base d)) hv
   | BSetOp o _ l r =>
       blspine_gtb (sp_pinned o) r && brspine_geb (sp_pinned o) l && bwf d l && bwf d r
-  | BNested (Query b' ob lim off) => bwf d b' && tail_wf (base d) ob lim off
-  end.
-
-Definition qwf (d : qdialect) (q : query) : bool :=
-  match q with Query b ob lim off => bwf d b && tail_wf (base d) ob lim off end.
-
-Definition tref_wf (d : qdialect) (t : tref setexpr) : bool :=
+  | BNested q => qwf d q
+  end
+with qwf (d : qdialect) (q : query) {struct q} : bool :=
+  match q with
+  | Query w b ob lim off =>
+      match w with Some x => with_wf d x | None => true end && bwf d b && tail_wf (base d) ob lim off
+  end
+with tref_wf (d : qdialect) (t : tref) {struct t} : bool :=
   match t with
   | TTable n a => name_ok d n && optb is_word a
   | TDerived q a => qwf d q && optb is_word a
-  end.
+  | TNested x a => twj_wf d x && nested_ok x && optb is_word a
+  end
+with twj_wf (d : qdialect) (t : twj) {struct t} : bool :=
+  match t with Twj r js => tref_wf d r && forallb (join_wf d) js end
+with join_wf (d : qdialect) (j : join) {struct j} : bool :=
+  match j with Join o r => jop_wf d o && tref_wf d r end
+with with_wf (d : qdialect) (w : withc) {struct w} : bool :=
+  match w with With rc ctes => with_names_ok d rc ctes && forallb (cte_wf d) ctes end
+with cte_wf (d : qdialect) (c : cte) {struct c} : bool :=
+  match c with Cte n cols q => is_word n && ccols_wf d cols && qwf d q end.
+
+Definition wwf (d : qdialect) (w : option withc) : bool :=
+  match w with Some x => with_wf d x | None => true end.
 
 (** * The syntactic fragment test on the printed tokens (conservative, decidable): at every
-    position the expression parser's view passes [frag_ok]; with trailing commas on no [, )];
-    no [* EXCEPT] / [* ILIKE] where these start a wildcard option *)
+    position where an expression can start the expression parser's view passes [frag_ok] (a position
+    is skipped when its token starts no expression, or when it is a name followed by [(]: the head of
+    a CTE with a column list - no expression of the fragment looks like that); with trailing commas
+    on no [, )]; no [* EXCEPT] / [* ILIKE] where these start a wildcard option *)
+Definition exempt (l : list qtok) : bool :=
+  match l with
+  | QE t :: r =>
+      negb (starts t) ||
+      match t, r with
+      | TAtom false _, QE TLParen :: _ => true
+      | _, _ => false
+      end
+  | _ => true
+  end.
+
 Fixpoint sfrag (d : dialect) (l : list qtok) : bool :=
-  frag_ok d (cut l) && match l with [] => true | _ :: r => sfrag d r end.
+  (exempt l || frag_ok d (cut l)) && match l with [] => true | _ :: r => sfrag d r end.
 
 Fixpoint star_ok (d : qdialect) (l : list qtok) : bool :=
   match l with
@@ -118,14 +168,82 @@ Definition qcase_full (d : qdialect) (ts : list qtok) (i : qires) : N :=
   end.
 
 (** * Basic facts *)
-Lemma cut_qe a r : cut (qe a ++ r) = a ++ cut r.
-Proof. induction a as [|t a IH]; [reflexivity|]. cbn [qe map app cut]. fold (qe a). rewrite IH. reflexivity. Qed.
-Lemma has_stop_qe a r : has_stop (qe a ++ r) = has_stop r.
-Proof. induction a as [|t a IH]; [reflexivity|]. exact IH. Qed.
+(** a token list with balanced parentheses: the expression parser's view passes over it *)
+Definition balanced (ts : list tok) : Prop :=
+  forall k post, cutd k (qe ts ++ post) = ts ++ cutd k post /\
+                 has_stopd k (qe ts ++ post) = has_stopd k post.
+
+Lemma bal_nil : balanced [].
+Proof. intros k post. split; reflexivity. Qed.
+Lemma bal_app a b : balanced a -> balanced b -> balanced (a ++ b).
+Proof.
+  intros Ha Hb k post. unfold qe. rewrite map_app, <- !app_assoc. fold (qe a) (qe b).
+  destruct (Ha k (qe b ++ post)) as [A1 A2]. destruct (Hb k post) as [B1 B2].
+  rewrite A1, A2, B1, B2. split; reflexivity.
+Qed.
+Lemma bal_cons t a : t <> TLParen -> t <> TRParen -> balanced a -> balanced (t :: a).
+Proof.
+  intros H1 H2 Ha k post. destruct (Ha k post) as [A1 A2]. cbn [qe map app].
+  destruct t; try congruence; cbn [cutd has_stopd]; fold (qe a); rewrite A1, A2; split; reflexivity.
+Qed.
+Lemma bal_paren a : balanced a -> balanced (TLParen :: a ++ [TRParen]).
+Proof.
+  intros Ha k post. cbn [qe map app cutd has_stopd]. unfold qe. rewrite map_app, <- app_assoc. fold (qe a).
+  destruct (Ha (S k) (QE TRParen :: post)) as [A1 A2]. cbn [map app]. rewrite A1, A2.
+  cbn [cutd has_stopd]. rewrite <- app_assoc. split; reflexivity.
+Qed.
+
+Ltac bal :=
+  repeat first [ assumption | apply bal_nil | apply bal_paren
+               | apply bal_cons; [discriminate|discriminate|] | apply bal_app ].
+
+Lemma commas_balanced l : Forall (fun e => balanced (yield e)) l -> balanced (commas l).
+Proof.
+  induction 1 as [|x r Hx Hr IH]; [apply bal_nil|].
+  destruct r as [|y r']; [exact Hx|]. change (commas (x :: y :: r')) with (yield x ++ TComma :: commas (y :: r')). bal.
+Qed.
+
+Lemma yield_balanced e : balanced (yield e).
+Proof.
+  induction e using expr_rect'.
+  all: try (rewrite yield_tuple); try (rewrite yield_inlist); cbn [yield].
+  all: try match goal with H : Forall _ _ |- _ => apply commas_balanced in H end.
+  all: try match goal with |- context [not_toks ?n] => destruct n end.
+  all: try match goal with |- context [like_toks ?k] => destruct k end.
+  all: try match goal with |- context [any_toks ?a] => destruct a end.
+  all: try match goal with |- context [match ?esc with Some _ => _ | None => _ end] => destruct esc as [[? ?]|] end.
+  all: try match goal with |- context [if ?c then TOp _ else TPre _] => destruct c end.
+  all: cbn [not_toks like_toks any_toks app]; bal.
+Qed.
+
+Lemma cut_yield e r : cut (qe (yield e) ++ r) = yield e ++ cut r.
+Proof. apply (yield_balanced e O r). Qed.
+Lemma has_stop_yield e r : has_stop (qe (yield e) ++ r) = has_stop r.
+Proof. apply (yield_balanced e O r). Qed.
 Lemma skipn_qe a r : skipn (length a) (qe a ++ r) = r.
 Proof. induction a as [|t a IH]; [reflexivity|]. exact IH. Qed.
 Lemma cut_nil_inv l : cut l = [] -> l = [].
-Proof. destruct l as [|[t| | |] r]; cbn [cut]; intro H; try discriminate; reflexivity. Qed.
+Proof. destruct l as [|[t| | |] r]; cbn [cut cutd]; intro H; try discriminate; try reflexivity. destruct t; discriminate. Qed.
+
+(** the token after a leading atom of a printed expression is not an opening parenthesis *)
+Lemma yield_atom_next e : forall s n x tl, yield e = TAtom s n :: x :: tl -> x <> TLParen.
+Proof.
+  assert (G : forall e' m rest s n x tl, m <> TLParen ->
+            (forall s n x tl, yield e' = TAtom s n :: x :: tl -> x <> TLParen) ->
+            yield e' ++ m :: rest = TAtom s n :: x :: tl -> x <> TLParen).
+  { intros e' m rest s n x tl Hm IH E. destruct (yield_starts e') as (t & tl0 & E0 & _). rewrite E0 in E.
+    cbn [app] in E. inversion E; subst t. destruct tl0 as [|y tl1].
+    - cbn [app] in H1. inversion H1; subst. exact Hm.
+    - cbn [app] in H1. inversion H1; subst. eapply IH. exact E0. }
+  induction e using expr_rect'; intros s0 n0 x0 tl0 E.
+  all: try (rewrite yield_tuple in E); try (rewrite yield_inlist in E); cbn [yield] in E.
+  all: try match type of E with context [not_toks ?n] => destruct n end.
+  all: try match type of E with context [like_toks ?k] => destruct k end.
+  all: try match type of E with context [if ?c then TOp _ else TPre _] => destruct c end.
+  all: cbn [not_toks like_toks app] in E.
+  all: try discriminate E.
+  all: refine (G _ _ _ _ _ _ _ _ _ E); [discriminate|assumption].
+Qed.
 
 Lemma ewf_parts d e : ewf d e = true ->
   shape d e /\ wf (flags_of d) (lvl d) e /\ lspine_gt (lvl d) (lvl d K_UNKNOWN) e /\ canonical e = true.
@@ -154,6 +272,16 @@ Proof.
   destruct k; try discriminate H. split; reflexivity.
 Qed.
 
+(** the start of a printed expression is a position the fragment test looks at *)
+Lemma exempt_yield e post : estop post = true -> exempt (qe (yield e) ++ post) = false.
+Proof.
+  intro Hs. destruct (yield_starts e) as (t & tl & E & St). rewrite E. cbn [qe map app exempt]. rewrite St.
+  cbn [negb orb]. destruct t; try reflexivity. destruct s; [reflexivity|].
+  destruct tl as [|x tl'].
+  - cbn [map app]. destruct post as [|[[]| | |] ?]; try reflexivity. discriminate Hs.
+  - pose proof (yield_atom_next e _ _ _ _ E) as Hx. cbn [map app]. destruct x; try reflexivity. congruence.
+Qed.
+
 Section Expr.
   Variable bd : dialect.
   Hypothesis U0 : lvl bd K_UNKNOWN = 0.
@@ -165,9 +293,9 @@ Section Expr.
   Proof.
     intros He Hf Hs. destruct (ewf_parts _ _ He) as (Hsh & Hw & Hl & _).
     destruct (estop_np bd _ Hs) as [Hn Hesc].
-    unfold pexpr. rewrite cut_qe.
+    unfold pexpr. rewrite cut_yield.
     rewrite (parse_expr_roundtrip bd U0 Hand e (cut post)); auto.
-    - cbn [bind]. rewrite has_stop_qe.
+    - cbn [bind]. rewrite has_stop_yield.
       assert (Hc : has_stop post && Nat.eqb (length (cut post)) 0 = false).
       { destruct (cut post) as [|c cr] eqn:E; [|cbn [length Nat.eqb]; apply andb_false_r].
         apply cut_nil_inv in E. subst post. reflexivity. }
@@ -201,12 +329,12 @@ Qed.
 Lemma qfrag_app d a b : qfrag d (a ++ b) = true -> qfrag d b = true.
 Proof. induction a as [|t a IH]; [auto|]. intro H. apply IH. eapply qfrag_cons. exact H. Qed.
 
-Lemma qfrag_frag d l : qfrag d l = true -> frag_ok (base d) (cut l) = true.
+Lemma qfrag_frag d l : qfrag d l = true -> exempt l = false -> frag_ok (base d) (cut l) = true.
 Proof.
-  unfold qfrag. intro H. apply andb_true_iff in H. destruct H as [H _].
+  unfold qfrag. intros H Hx. apply andb_true_iff in H. destruct H as [H _].
   apply andb_true_iff in H. destruct H as [H _]. destruct l; cbn [sfrag] in H.
-  - apply andb_true_iff in H. tauto.
-  - apply andb_true_iff in H. tauto.
+  - apply andb_true_iff in H. destruct H as [H _]. rewrite Hx in H. exact H.
+  - apply andb_true_iff in H. destruct H as [H _]. rewrite Hx in H. exact H.
 Qed.
 
 Lemma qfrag_trail d l : qfrag d l = true -> trailing d = true \/ proj_trailing d = true -> comma_rparen l = false.
@@ -229,10 +357,14 @@ Definition kw_only (w : qtok) : bool :=
 Definition clause_words : list qtok :=
   [QK KWhere; QK KGroup; QK KHaving; QK KUnion; QK KExcept; QK KIntersect; QK KOrder; QK KLimit; QK KOffset].
 
+(** the keywords that may follow a table of a join in the printed text *)
+Definition join_words : list qtok :=
+  [QK KJoin; QK KInner; QK KLeft; QK KRight; QK KFull; QK KCross; QK KNatural; QK KOn; QK KUsing].
+
 Definition dialect_ok (d : qdialect) : bool :=
   (lvl (base d) K_UNKNOWN =? 0) && (lvl (base d) K_AND <=? lvl (base d) C_Between) &&
   forallb (fun w => mem w (res_col d)) (QE (TKw KFrom) :: clause_words) &&
-  forallb (fun w => mem w (res_tab d)) clause_words &&
+  forallb (fun w => mem w (res_tab d)) (clause_words ++ join_words) &&
   forallb kw_only (res_col d).
 
 (** * Followers: the head of what comes after a clause of a printed query *)
@@ -264,6 +396,27 @@ Proof. head_cases post; cbn [ender hrank]; intro; try reflexivity; discriminate.
 (** [fol post]: [post] starts with a comma or with something that ends the list *)
 Definition is_comma (post : list qtok) : bool :=
   match post with QE TComma :: _ => true | _ => false end.
+
+(** the join keywords the printer writes at the start of a join / what may follow the table of a join *)
+Definition jstart (post : list qtok) : bool :=
+  match post with
+  | QK KJoin :: _ | QK KLeft :: _ | QK KRight :: _ | QK KFull :: _ | QK KCross :: _ | QK KNatural :: _ => true
+  | _ => false
+  end.
+Definition jhead (post : list qtok) : bool :=
+  match post with
+  | QK KOn :: _ | QK KUsing :: _ => true
+  | _ => jstart post
+  end.
+
+Ltac qhead post := destruct post as [|[?|[]| |] ?].
+
+Lemma jstart_jhead post : jstart post = true -> jhead post = true.
+Proof. qhead post; cbn [jstart jhead]; intro H; try discriminate H; reflexivity. Qed.
+Lemma jhead_estop post : jhead post = true -> estop post = true.
+Proof. qhead post; cbn [jhead jstart]; intro H; try discriminate H; reflexivity. Qed.
+Lemma jhead_hrank post : jhead post = true -> hrank post = 0%nat.
+Proof. qhead post; cbn [jhead jstart]; intro H; try discriminate H; reflexivity. Qed.
 
 (** * Aliases *)
 Definition noalias (res : list qtok) (post : list qtok) : bool :=
@@ -328,7 +481,7 @@ Section Followers.
   Lemma d_parts :
     lvl (base d) K_UNKNOWN = 0 /\ lvl (base d) K_AND <= lvl (base d) C_Between /\
     forallb (fun w => mem w (res_col d)) (QE (TKw KFrom) :: clause_words) = true /\
-    forallb (fun w => mem w (res_tab d)) clause_words = true /\ forallb kw_only (res_col d) = true.
+    forallb (fun w => mem w (res_tab d)) (clause_words ++ join_words) = true /\ forallb kw_only (res_col d) = true.
   Proof.
     pose proof Hd as H. unfold dialect_ok in H.
     apply andb_true_iff in H. destruct H as [H H5]. apply andb_true_iff in H. destruct H as [H H4].
@@ -339,7 +492,7 @@ Section Followers.
   Lemma d_Hand : lvl (base d) K_AND <= lvl (base d) C_Between.  Proof. apply d_parts. Qed.
   Lemma d_col w : In w (QE (TKw KFrom) :: clause_words) -> mem w (res_col d) = true.
   Proof. destruct d_parts as (_ & _ & H & _). rewrite forallb_forall in H. apply H. Qed.
-  Lemma d_tab w : In w clause_words -> mem w (res_tab d) = true.
+  Lemma d_tab w : In w (clause_words ++ join_words) -> mem w (res_tab d) = true.
   Proof. destruct d_parts as (_ & _ & _ & H & _). rewrite forallb_forall in H. apply H. Qed.
   Lemma d_kw w : mem w (res_col d) = true -> kw_only w = true.
   Proof.
@@ -359,6 +512,11 @@ Section Followers.
   Lemma noalias_tab post : (2 <= hrank post)%nat -> noalias (res_tab d) post = true.
   Proof.
     head_cases post; cbn [hrank]; intro H; try lia; try reflexivity; cbn [noalias is_word negb orb andb];
+      rewrite d_tab; try reflexivity; cbn; tauto.
+  Qed.
+  Lemma noalias_jhead post : jhead post = true -> noalias (res_tab d) post = true.
+  Proof.
+    qhead post; cbn [jhead jstart]; intro H; try discriminate H; cbn [noalias is_word negb orb andb];
       rewrite d_tab; try reflexivity; cbn; tauto.
   Qed.
 End Followers.
@@ -463,43 +621,51 @@ Proof.
       eexists; eexists; (split; [reflexivity|split; [cbn [starts]; auto|intro; discriminate]]).
 Qed.
 
-(** * Unfolding lemmas for the nested definitions *)
+(** * Unfolding lemmas *)
 Lemma btoks_select dist items from wh gb hv :
   btoks (BSelect dist items from wh gb hv) =
-  QK KSelect :: dist_toks dist ++ sepc (map item_toks items) ++ from_toks (map tref_toks from) ++
+  QK KSelect :: dist_toks dist ++ sepc (map item_toks items) ++ from_toks (map twj_toks from) ++
   clause_toks (QK KWhere) wh ++ group_toks gb ++ clause_toks (QK KHaving) hv.
-Proof.
-  cbn [btoks]. do 4 f_equal. f_equal. apply map_ext. intros [n a|[b' ob lim off] a]; reflexivity.
-Qed.
+Proof. reflexivity. Qed.
 Lemma btoks_nested q : btoks (BNested q) = QE TLParen :: qtoks q ++ [QE TRParen].
-Proof. destruct q; reflexivity. Qed.
+Proof. reflexivity. Qed.
 Lemma btoks_setop o q l r : btoks (BSetOp o q l r) = btoks l ++ setop_kw o :: quant_toks q ++ btoks r.
+Proof. reflexivity. Qed.
+Lemma qtoks_query w b ob lim off :
+  qtoks (Query w b ob lim off) =
+  wtoks w ++ btoks b ++ order_toks ob ++ clause_toks (QK KLimit) lim ++ clause_toks (QK KOffset) off.
 Proof. reflexivity. Qed.
 
 Lemma bwf_select d dist items from wh gb hv :
   bwf d (BSelect dist items from wh gb hv) =
   match items with [] => false | _ => true end && forallb (item_wf (base d)) items &&
-  forallb (tref_wf d) from && later_names_ok d from &&
+  forallb (twj_wf d) from && later_names_ok d from &&
   optb (ewf (base d)) wh && forallb (ewf (base d)) gb && optb (ewf (base d)) hv.
-Proof.
-  cbn [bwf]. do 4 f_equal. f_equal. clear. induction from as [|t r IH]; [reflexivity|].
-  cbn [forallb]. rewrite IH. f_equal. destruct t as [n a|[b' ob lim off] a]; reflexivity.
-Qed.
+Proof. reflexivity. Qed.
 Lemma bwf_nested d q : bwf d (BNested q) = qwf d q.
-Proof. destruct q; reflexivity. Qed.
+Proof. reflexivity. Qed.
+Lemma qwf_query d w b ob lim off :
+  qwf d (Query w b ob lim off) = wwf d w && bwf d b && tail_wf (base d) ob lim off.
+Proof. reflexivity. Qed.
 
 Lemma blevel_select dist items from wh gb hv :
-  blevel (BSelect dist items from wh gb hv) = S (maxl (map tlevel from)).
-Proof.
-  cbn [blevel]. do 2 f_equal. apply map_ext. intros [n a|[b' ob lim off] a]; reflexivity.
-Qed.
+  blevel (BSelect dist items from wh gb hv) = S (maxl (map twjlevel from)).
+Proof. reflexivity. Qed.
 Lemma blevel_nested q : blevel (BNested q) = S (qlevel q).
-Proof. destruct q; reflexivity. Qed.
+Proof. reflexivity. Qed.
 
 Lemma maxl_le l n : (maxl l <= n)%nat -> Forall (fun x => (x <= n)%nat) l.
 Proof. induction l as [|x l IH]; cbn [maxl fold_right]; intro H; constructor; [lia|apply IH; unfold maxl; lia]. Qed.
 
+Lemma maxl_map_le {A} (g : A -> nat) (l : list A) n : (maxl (map g l) <= n)%nat -> Forall (fun x => (g x <= n)%nat) l.
+Proof.
+  intro H. apply maxl_le in H. rewrite Forall_forall in *. intros x Hin. apply H. apply in_map. exact Hin.
+Qed.
+
 (** the head of a printed body is SELECT or an opening parenthesis *)
+Definition bstart (post : list qtok) : bool :=
+  match post with QK KSelect :: _ | QE TLParen :: _ => true | _ => false end.
+
 Lemma btoks_head b : exists h r, btoks b = h :: r /\ (h = QK KSelect \/ h = QE TLParen).
 Proof.
   induction b as [dist items from wh gb hv|o q l IHl r IHr|q].
@@ -507,6 +673,8 @@ Proof.
   - destruct IHl as (h & r' & E & H). rewrite btoks_setop, E. cbn [app]. eauto.
   - rewrite btoks_nested. eauto.
 Qed.
+Lemma btoks_bstart b X : bstart (btoks b ++ X) = true.
+Proof. destruct (btoks_head b) as (h & r & E & [H|H]); rewrite E; subst h; reflexivity. Qed.
 
 Definition headpow (post : list qtok) : N :=
   match set_op_of post with Some (o, _) => sp_pinned o | None => 0 end.
@@ -519,6 +687,39 @@ Proof. induction b; cbn [blspine_gtb]; auto. rewrite IHb1. destruct o; reflexivi
 Lemma brspine_geb_0 b : brspine_geb 0 b = true.
 Proof. induction b; cbn [brspine_geb]; auto. rewrite IHb2. destruct o; reflexivity. Qed.
 
+(** [parse_query] did not find a query followed by a closing parenthesis *)
+Definition notq {A} (x : res (A * list qtok)) : Prop :=
+  match x with
+  | Err => True
+  | Ok (_, QE TRParen :: _) => False
+  | Ok _ => True
+  | _ => False
+  end.
+
+Definition bare_derived (t : tref) : bool :=
+  match t with TDerived _ None => true | _ => false end.
+
+(** what the tail of [parse_query] does not look at *)
+Definition inert (post : list qtok) : bool :=
+  match post with QK KAs :: _ => true | _ => jstart post end.
+
+Lemma jstart_joins js post : js <> [] -> jstart (concat (map join_toks js) ++ post) = true.
+Proof.
+  destruct js as [|[o r] js']; [congruence|]. intros _. cbn [map concat join_toks]. rewrite <- !app_assoc.
+  destruct o as [|k c]; [reflexivity|]. destruct c; destruct k; reflexivity.
+Qed.
+
+Lemma join_toks_length j : (1 <= length (join_toks j))%nat.
+Proof. destruct j as [o r]. cbn [join_toks]. destruct o as [|k c]; [cbn; lia|]. destruct c; destruct k; cbn; lia. Qed.
+Lemma joins_length js post : (length js <= length (concat (map join_toks js) ++ post))%nat.
+Proof.
+  induction js as [|j js IH]; [cbn; lia|]. cbn [map concat length]. rewrite <- app_assoc, app_length.
+  pose proof (join_toks_length j). lia.
+Qed.
+
+Lemma comma_end_word res w r : is_word w = true -> comma_end res (w :: r) = mem w res.
+Proof. destruct w as [[]| | |]; cbn [is_word]; intro H; try discriminate H; reflexivity. Qed.
+
 (** * The round trip, one nesting level at a time *)
 Section RoundTrip.
   Variable d : qdialect.
@@ -527,6 +728,9 @@ Section RoundTrip.
 
   (** after a list element: a comma, or the end of the clause *)
   Definition fol (n : nat) (post : list qtok) : Prop := is_comma post = true \/ (n <= hrank post)%nat.
+
+  Lemma fol_comma n r : fol n (QE TComma :: r).
+  Proof. left. reflexivity. Qed.
 
   Lemma fol_estop n post : (1 <= n)%nat -> fol n post -> estop post = true.
   Proof.
@@ -542,7 +746,7 @@ Section RoundTrip.
     assert (Ht : trailing d && comma_rparen (qe (yield e) ++ post) = false).
     { destruct (trailing d) eqn:T; [|reflexivity]. cbn [andb]. eapply qfrag_trail; eauto. }
     rewrite Ht. apply pexpr_rt; auto using (d_U0 d Hd), (d_Hand d Hd).
-    apply qfrag_frag in Hf. rewrite cut_qe in Hf. exact Hf.
+    rewrite <- cut_yield. apply qfrag_frag; [exact Hf|apply exempt_yield; exact Hs].
   Qed.
 
   Lemma parse_item_expr_eq t r : starts t = true -> parse_item d (QE t :: r) = parse_item_expr d (QE t :: r).
@@ -608,19 +812,21 @@ Section RoundTrip.
   Lemma hrank_not_comma n post : (1 <= n)%nat -> (n <= hrank post)%nat -> is_comma post = false.
   Proof. intros Hn H. head_cases post; cbn [hrank] in H; try lia; reflexivity. Qed.
 
+  (** [F]: what may follow an element of the list (a comma always may) *)
   Lemma elems_ok_build {A} (elem : list qtok -> res (A * list qtok)) (trail : option (list qtok))
-        (toks : A -> list qtok) (P : A -> bool) (n : nat) :
-    (forall x post', P x = true -> qfrag d (toks x ++ post') = true -> fol n post' ->
+        (toks : A -> list qtok) (P : A -> bool) (F : list qtok -> Prop) :
+    (forall r, F (QE TComma :: r)) ->
+    (forall x post', P x = true -> qfrag d (toks x ++ post') = true -> F post' ->
                      elem (toks x ++ post') = Ok (x, post')) ->
     forall l post, forallb P l = true ->
       Forall (fun x => forall r, notrail trail (toks x ++ r)) (tl l) ->
-      qfrag d (sepc (map toks l) ++ post) = true -> (n <= hrank post)%nat ->
+      qfrag d (sepc (map toks l) ++ post) = true -> F post ->
       elems_ok elem trail toks l post.
   Proof.
-    intros Hel. induction l as [|x suf IH]; intros post HP Hnt Hf Hr; [exact I|].
+    intros HFc Hel. induction l as [|x suf IH]; intros post HP Hnt Hf Hr; [exact I|].
     cbn [forallb] in HP. apply andb_true_iff in HP. destruct HP as [Hx HP]. cbn [tl] in Hnt.
     rewrite sepc_follow in Hf. cbn [elems_ok]. split; [|split].
-    - apply Hel; auto. destruct suf; [right; exact Hr|left; reflexivity].
+    - apply Hel; auto. destruct suf; [exact Hr|apply HFc].
     - intro Hne. destruct suf as [|y suf']; [congruence|]. rewrite sepc_follow. inversion Hnt; subst. auto.
     - destruct suf as [|y suf']; [exact I|]. apply IH; auto.
       + inversion Hnt; subst. destruct suf'; [constructor|]. cbn [tl]. assumption.
@@ -651,6 +857,20 @@ Section RoundTrip.
   Lemma trail_all_col res : trail_all d = Some res -> res = res_col d.
   Proof. unfold trail_all. destruct (trailing d); congruence. Qed.
 
+  (** an element that starts with a word which does not end a list *)
+  Lemma notrail_word w r : is_word w = true -> later_ok d w = true -> notrail (trail_all d) (w :: r).
+  Proof.
+    intros Hw Hl. unfold notrail. destruct (trail_all d) as [res|] eqn:T; [|exact I].
+    rewrite (trail_all_col _ T). unfold trail_all in T. destruct (trailing d) eqn:Tr; [|discriminate].
+    rewrite comma_end_word by exact Hw. unfold later_ok in Hl. rewrite Tr in Hl. cbn [andb] in Hl.
+    apply negb_true_iff in Hl. exact Hl.
+  Qed.
+  Lemma notrail_lparen r : notrail (trail_all d) (QE TLParen :: r).
+  Proof.
+    unfold notrail. destruct (trail_all d) as [res|] eqn:T; [|exact I]. rewrite (trail_all_col _ T).
+    apply comma_end_safe. left. reflexivity.
+  Qed.
+
   Lemma notrail_item i r : item_wf bd i = true -> notrail (trail_proj d) (item_toks i ++ r).
   Proof.
     intro Hw. destruct i as [|e|e w]; cbn [item_toks item_wf] in *.
@@ -667,10 +887,11 @@ Section RoundTrip.
     comma_list (parse_item d) (trail_proj d) g (sepc (map item_toks items) ++ post) = Ok (items, post).
   Proof.
     intros Hne Hw Hf Hr Hg. apply comma_list_rt; auto.
-    - eapply (elems_ok_build _ _ _ (item_wf bd) 1); eauto.
+    - eapply (elems_ok_build _ _ _ (item_wf bd) (fol 1)); eauto using fol_comma.
       + intros; apply item_rt; auto.
       + rewrite forallb_forall in Hw. apply Forall_forall. intros x Hin r. apply notrail_item. apply Hw.
         destruct items; [contradiction|right; exact Hin].
+      + right; exact Hr.
     - eapply hrank_not_comma; [|exact Hr]. lia.
   Qed.
 
@@ -680,11 +901,12 @@ Section RoundTrip.
     comma_list (parse_group_elem d) (trail_all d) g (sepc (map (fun e => qe (ptoks e)) l) ++ post) = Ok (l, post).
   Proof.
     intros Hne Hw Hf Hr Hg. apply comma_list_rt; auto.
-    - eapply (elems_ok_build _ _ _ (ewf bd) 4); eauto.
+    - eapply (elems_ok_build _ _ _ (ewf bd) (fol 4)); eauto using fol_comma.
       + intros; apply group_elem_rt; auto.
       + rewrite forallb_forall in Hw. apply Forall_forall. intros x Hin r. cbv beta.
         rewrite (ewf_ptoks bd x). { apply notrail_yield. apply trail_all_col. }
         apply Hw. destruct l; [contradiction|right; exact Hin].
+      + right; exact Hr.
     - eapply hrank_not_comma; [|exact Hr]. lia.
   Qed.
 
@@ -694,11 +916,12 @@ Section RoundTrip.
     comma_list (parse_order_elem d) (trail_all d) g (sepc (map order_elem_toks l) ++ post) = Ok (l, post).
   Proof.
     intros Hne Hw Hf Hr Hg. apply comma_list_rt; auto.
-    - eapply (elems_ok_build _ _ _ (fun x => ewf bd (fst x)) 7); eauto.
+    - eapply (elems_ok_build _ _ _ (fun x => ewf bd (fst x)) (fol 7)); eauto using fol_comma.
       + intros x post' Hx Hq [Hp|Hp]; apply order_elem_rt; auto.
       + rewrite forallb_forall in Hw. apply Forall_forall. intros x Hin r. unfold order_elem_toks.
         rewrite (ewf_ptoks bd (fst x)), <- app_assoc. { apply notrail_yield. apply trail_all_col. }
         apply Hw. destruct l; [contradiction|right; exact Hin].
+      + right; exact Hr.
     - eapply hrank_not_comma; [|exact Hr]. lia.
   Qed.
 
@@ -724,17 +947,19 @@ Section RoundTrip.
   Proof. intro H. head_cases ts; cbn [hrank] in H; try lia; reflexivity. Qed.
   Lemma opt_by_miss ts : (1 <= hrank ts)%nat -> opt_tok (QK KBy) ts = (false, ts).
   Proof. intro H. head_cases ts; cbn [hrank] in H; try lia; reflexivity. Qed.
+  Lemma opt_with_miss ts : (1 <= hrank ts)%nat -> opt_tok (QK KWith) ts = (false, ts).
+  Proof. intro H. head_cases ts; cbn [hrank] in H; try lia; reflexivity. Qed.
   Lemma set_op_miss ts : (6 <= hrank ts)%nat -> set_op_of ts = None.
   Proof. intro H. head_cases ts; cbn [hrank] in H; try lia; reflexivity. Qed.
 
   Lemma opt_start_miss k t r :
-    k = QK KAs \/ k = QE (TKw KAll) \/ k = QE (TKw KDistinct) ->
+    k = QK KAs \/ k = QE (TKw KAll) \/ k = QE (TKw KDistinct) \/ k = QK KOn ->
     starts t = true \/ t = TOp K_Mul -> opt_tok k (QE t :: r) = (false, QE t :: r).
   Proof.
     intros Hk [H|H].
-    - destruct t; cbn [starts] in H; try discriminate H; destruct Hk as [->|[->| ->]]; try reflexivity;
+    - destruct t; cbn [starts] in H; try discriminate H; destruct Hk as [->|[->|[->| ->]]]; try reflexivity;
         destruct k0; try discriminate H; reflexivity.
-    - subst t. destruct Hk as [->|[->| ->]]; reflexivity.
+    - subst t. destruct Hk as [->|[->|[->| ->]]]; reflexivity.
   Qed.
 
   Lemma items_head items rest :
@@ -759,10 +984,89 @@ Section RoundTrip.
     destruct (yield_head e) as (t & tl & E & St). rewrite E. eexists; eexists; split; [reflexivity|auto].
   Qed.
 
+  (** ** followers of a table inside FROM: the end of the FROM element, or more of a join *)
+  Definition tfol (post : list qtok) : Prop := fol 2 post \/ jhead post = true.
+  (** ... of a join: the end of the FROM element, or the next join *)
+  Definition jfol (post : list qtok) : Prop := fol 2 post \/ jstart post = true.
+
+  Lemma jfol_tfol post : jfol post -> tfol post.
+  Proof. intros [H|H]; [left; exact H|right; apply jstart_jhead; exact H]. Qed.
+  Lemma jfol_estop post : jfol post -> estop post = true.
+  Proof. intros [H|H]; [eapply (fol_estop 2); [lia|exact H]|apply jhead_estop, jstart_jhead; exact H]. Qed.
+  Lemma joins_jfol js post : fol 2 post -> jfol (concat (map join_toks js) ++ post).
+  Proof. intro H. destruct js as [|j js']; [left; exact H|right; apply jstart_joins; discriminate]. Qed.
+
+  Lemma fol_noalias_tab post : tfol post -> noalias (res_tab d) post = true /\ not_lparen post = true.
+  Proof.
+    intros [[Hp|Hp]|Hp].
+    - split; [apply noalias_comma|apply not_lparen_comma]; exact Hp.
+    - split; [apply noalias_tab; auto|apply not_lparen_hrank; lia].
+    - split; [apply noalias_jhead; auto|]. qhead post; cbn [jhead jstart] in Hp; try discriminate Hp; reflexivity.
+  Qed.
+
+  Lemma table_follow_ok a post : tfol post -> table_follow d (alias_toks a ++ post) = Ok tt.
+  Proof.
+    intro Hp. destruct a; [reflexivity|]. cbn [alias_toks app].
+    destruct Hp as [[Hp|Hp]|Hp].
+    - head_cases post; cbn [is_comma] in Hp; try discriminate Hp; reflexivity.
+    - head_cases post; cbn [hrank] in Hp; try lia; reflexivity.
+    - qhead post; cbn [jhead jstart] in Hp; try discriminate Hp; reflexivity.
+  Qed.
+
+  Lemma hint_miss {B} post (X Y : res B) :
+    tfol post -> match post with QK KWith :: QE TLParen :: _ => X | _ => Y end = Y.
+  Proof.
+    intros [[Hp|Hp]|Hp].
+    - head_cases post; cbn [is_comma] in Hp; try discriminate Hp; reflexivity.
+    - head_cases post; cbn [hrank] in Hp; try lia; reflexivity.
+    - qhead post; cbn [jhead jstart] in Hp; try discriminate Hp; reflexivity.
+  Qed.
+
+  Lemma parse_tref_word n r rq rt : is_word n = true ->
+    parse_tref d rq rt (n :: r) =
+    if unnest_table d && qtok_eqb n (QE (TKw KUnnest)) then OutOfFragment
+    else bind (table_follow d r) (fun _ =>
+           bind (parse_talias (res_tab d) r) (fun '(a, r1) =>
+             match r1 with
+             | QK KWith :: QE TLParen :: _ => OutOfFragment
+             | _ => Ok (TTable n a, r1)
+             end)).
+  Proof.
+    intro H. destruct n as [t|k| |]; try discriminate H; [destruct t; try discriminate H|].
+    all: cbn [parse_tref]; rewrite ?H; try reflexivity.
+  Qed.
+
+  (** ** column lists *)
+  Lemma cols_elems cols post :
+    forallb is_word cols = true -> forallb (later_ok d) (tl cols) = true ->
+    elems_ok (parse_ident) (trail_all d) (fun c => [c]) cols post.
+  Proof.
+    induction cols as [|c r IH]; [intros; exact I|]. cbn [forallb tl]. intros Hw Hl.
+    apply andb_true_iff in Hw. destruct Hw as [Hc Hw]. cbn [elems_ok]. split; [|split].
+    - cbn [app]. unfold parse_ident. rewrite Hc. reflexivity.
+    - intro Hne. destruct r as [|c2 r']; [congruence|].
+      rewrite sepc_follow. cbn [app]. cbn [forallb] in Hl, Hw.
+      apply andb_true_iff in Hl. destruct Hl as [Hl _]. apply andb_true_iff in Hw. destruct Hw as [Hw _].
+      apply notrail_word; assumption.
+    - apply IH; [exact Hw|]. destruct r as [|c2 r']; [reflexivity|]. cbn [tl forallb] in *.
+      apply andb_true_iff in Hl. tauto.
+  Qed.
+
+  Lemma cols_rt cols post :
+    cols_wf d cols = true ->
+    parse_cols d (sepc (map (fun c => [c]) cols) ++ QE TRParen :: post) = Ok (cols, post).
+  Proof.
+    intro Hw. unfold cols_wf in Hw. destruct cols as [|c0 r0]; [discriminate|].
+    apply andb_true_iff in Hw. destruct Hw as [Hw Hl]. unfold parse_cols.
+    rewrite comma_list_rt; [reflexivity|discriminate|apply cols_elems; assumption|reflexivity|].
+    apply fuel_commas.
+  Qed.
+
   (** ** one level: the recursive calls are correct one level down *)
   Variable f : nat.
   Variable recq : list qtok -> res (query * list qtok).
   Variable recb : N -> list qtok -> res (setexpr * list qtok).
+  Variable rect : list qtok -> res (twj * list qtok).
   Hypothesis Hq : forall q post,
     qwf d q = true -> (qlevel q <= f)%nat -> ender post = true -> qfrag d (qtoks q ++ post) = true ->
     recq (qtoks q ++ post) = Ok (q, post).
@@ -770,81 +1074,158 @@ Section RoundTrip.
     bwf d b = true -> (blevel b <= f)%nat -> blspine_gtb p b = true -> headpow post <= p ->
     brspine_geb (headpow post) b = true -> (5 <= hrank post)%nat -> qfrag d (btoks b ++ post) = true ->
     recb p (btoks b ++ post) = Ok (b, post).
+  Hypothesis Ht : forall t post,
+    twj_wf d t = true -> (S (twjlevel t) <= f)%nat -> qfrag d (twj_toks t ++ post) = true -> fol 2 post ->
+    rect (twj_toks t ++ post) = Ok (t, post).
+  Hypothesis Hn : forall r post,
+    tref_wf d r = true -> first_ok r = true -> (S (tlevel r) <= f)%nat ->
+    (bare_derived r = true -> jstart post = true) -> qfrag d (tref_toks r ++ post) = true ->
+    notq (recq (tref_toks r ++ post)).
 
-  Lemma parse_tref_word n r : is_word n = true ->
-    parse_tref d recq (n :: r) =
-    if unnest_table d && qtok_eqb n (QE (TKw KUnnest)) then OutOfFragment
-    else bind (table_follow d r) (fun _ =>
-           bind (parse_talias (res_tab d) r) (fun '(a, r1) => Ok (TTable n a, r1))).
+  Lemma parse_derived_err r : notq (recq r) -> parse_derived d recq r = Err.
   Proof.
-    intro H. destruct n as [t|k| |]; try discriminate H; [destruct t; try discriminate H|].
-    all: cbn [parse_tref]; rewrite ?H; try reflexivity.
-  Qed.
-
-  Lemma table_follow_ok a post : fol 2 post -> table_follow d (alias_toks a ++ post) = Ok tt.
-  Proof.
-    intro Hp. destruct a; [reflexivity|]. cbn [alias_toks app].
-    destruct Hp as [Hp|Hp]; head_cases post; cbn [is_comma hrank] in Hp; try discriminate Hp; try lia; reflexivity.
-  Qed.
-
-  Lemma fol_noalias_tab post : fol 2 post -> noalias (res_tab d) post = true /\ not_lparen post = true.
-  Proof.
-    intros [Hp|Hp].
-    - split; [apply noalias_comma|apply not_lparen_comma]; exact Hp.
-    - split; [apply noalias_tab; auto|apply not_lparen_hrank; lia].
+    unfold parse_derived. destruct (recq r) as [[q0 [|[[]| | |] r0]]| | |]; cbn [notq]; intro H; try reflexivity; contradiction.
   Qed.
 
   Lemma tref_rt t post :
-    tref_wf d t = true -> (tlevel t <= f)%nat -> qfrag d (tref_toks t ++ post) = true -> fol 2 post ->
-    parse_tref d recq (tref_toks t ++ post) = Ok (t, post).
+    tref_wf d t = true -> (tlevel t <= f)%nat -> qfrag d (tref_toks t ++ post) = true -> tfol post ->
+    parse_tref d recq rect (tref_toks t ++ post) = Ok (t, post).
   Proof.
     intros Hw Hl Hf Hp. destruct (fol_noalias_tab _ Hp) as [Hna Hnl].
-    destruct t as [n a|q a]; cbn [tref_wf tref_toks tlevel] in *.
-    - apply andb_true_iff in Hw. destruct Hw as [Hn Ha]. unfold name_ok in Hn.
-      apply andb_true_iff in Hn. destruct Hn as [Hn Hu]. apply negb_true_iff in Hu.
-      cbn [app]. rewrite parse_tref_word by exact Hn. rewrite Hu.
+    destruct t as [n a|q a|x a]; cbn [tref_wf tref_toks tlevel] in *.
+    - apply andb_true_iff in Hw. destruct Hw as [Hn' Ha]. unfold name_ok in Hn'.
+      apply andb_true_iff in Hn'. destruct Hn' as [Hn' Hu]. apply negb_true_iff in Hu.
+      cbn [app]. rewrite parse_tref_word by exact Hn'. rewrite Hu.
       rewrite table_follow_ok by exact Hp. cbn [bind].
-      rewrite parse_talias_rt by assumption. reflexivity.
+      rewrite parse_talias_rt by assumption. cbn [bind]. apply hint_miss. exact Hp.
     - apply andb_true_iff in Hw. destruct Hw as [Hqw Ha].
-      cbn [app parse_tref]. rewrite <- app_assoc. cbn [app].
+      cbn [app parse_tref]. rewrite <- app_assoc. cbn [app]. unfold parse_derived.
       rewrite Hq; auto.
       + rewrite parse_talias_rt by assumption. reflexivity.
       + cbn [app] in Hf. apply qfrag_cons in Hf. rewrite <- app_assoc in Hf. exact Hf.
+    - apply andb_true_iff in Hw. destruct Hw as [Hw Ha]. apply andb_true_iff in Hw. destruct Hw as [Hxw Hno].
+      unfold nested_ok in Hno. apply andb_true_iff in Hno. destruct Hno as [Hsh Hfi].
+      cbn [app parse_tref]. rewrite <- app_assoc. cbn [app].
+      cbn [app] in Hf. apply qfrag_cons in Hf. rewrite <- app_assoc in Hf. cbn [app] in Hf.
+      rewrite parse_derived_err.
+      + rewrite Ht; [|exact Hxw|exact Hl|exact Hf|right; cbn [hrank]; lia]. cbn [bind]. rewrite Hsh.
+        rewrite Hfi. cbn [negb]. rewrite parse_talias_rt by assumption. reflexivity.
+      + destruct x as [r js]. cbn [twj_toks twj_wf twjlevel first_of] in *. rewrite <- app_assoc in *.
+        apply andb_true_iff in Hxw. destruct Hxw as [Hrw _].
+        apply Hn; [exact Hrw|exact Hfi|lia| |exact Hf].
+        intro Hbd. apply jstart_joins. destruct r as [| q0 [a0|]|]; try discriminate Hbd.
+        destruct js; [discriminate Hsh|discriminate].
   Qed.
 
-  Definition later_ok (t : tref setexpr) : bool :=
-    match t with
-    | TTable n _ => negb (trailing d && mem n (res_col d))
-    | TDerived _ _ => true
-    end.
+  (** ** joins *)
+  Lemma jkind_rt k X : parse_jkind (jkind_toks k ++ X) = Ok (Some (k, X)).
+  Proof. destruct k; reflexivity. Qed.
 
-  Lemma notrail_tref t r :
-    tref_wf d t = true -> later_ok t = true -> notrail (trail_all d) (tref_toks t ++ r).
+  Lemma jcons_none rest : jfol rest -> parse_jcons d false rest = Ok (JNone, rest).
   Proof.
-    intros Hw Hl. unfold notrail. destruct (trail_all d) as [res|] eqn:T; [|exact I].
-    rewrite (trail_all_col _ T). unfold trail_all in T. destruct (trailing d) eqn:Tr; [|discriminate].
-    destruct t as [n a|q a]; cbn [tref_toks tref_wf later_ok] in *.
-    - rewrite Tr in Hl. cbn [andb] in Hl. apply negb_true_iff in Hl.
-      apply andb_true_iff in Hw. destruct Hw as [Hn _]. unfold name_ok in Hn. apply andb_true_iff in Hn. destruct Hn as [Hn _].
-      cbn [app comma_end]. destruct n as [tk|k| |]; try discriminate Hn; [destruct tk; try discriminate Hn|]; exact Hl.
-    - cbn [app]. apply comma_end_safe. left. reflexivity.
+    intros [[Hp|Hp]|Hp].
+    - head_cases rest; cbn [is_comma] in Hp; try discriminate Hp; reflexivity.
+    - head_cases rest; cbn [hrank] in Hp; try lia; reflexivity.
+    - qhead rest; cbn [jstart] in Hp; try discriminate Hp; reflexivity.
   Qed.
 
-  Lemma trefs_rt from post g :
-    from <> [] -> forallb (tref_wf d) from = true -> later_names_ok d from = true ->
-    Forall (fun t => (tlevel t <= f)%nat) from ->
-    qfrag d (sepc (map tref_toks from) ++ post) = true -> (2 <= hrank post)%nat -> (length from <= g)%nat ->
-    comma_list (parse_tref d recq) (trail_all d) g (sepc (map tref_toks from) ++ post) = Ok (from, post).
+  Lemma jcons_rt k c rest :
+    jop_wf d (JOp k c) = true -> jfol rest -> qfrag d (jop_suf (JOp k c) ++ rest) = true ->
+    parse_jcons d (match c with JNatural => true | _ => false end) (jop_suf (JOp k c) ++ rest) = Ok (c, rest).
+  Proof.
+    intros Hw Hp Hf. destruct c as [e|cols| |]; cbn [jop_suf jop_wf app] in *.
+    - rewrite (ewf_ptoks _ _ Hw) in *. cbn [parse_jcons].
+      rewrite pex_rt; [reflexivity|exact Hw|eapply qfrag_cons; exact Hf|apply jfol_estop; exact Hp].
+    - cbn [parse_jcons]. unfold cols_toks. cbn [app]. rewrite <- app_assoc. cbn [app].
+      rewrite cols_rt by exact Hw. reflexivity.
+    - reflexivity.
+    - apply jcons_none. exact Hp.
+  Qed.
+
+  Lemma join_loop_end g post : (0 < g)%nat -> fol 2 post -> join_loop d recq rect g post = Ok ([], post).
+  Proof.
+    intros Hg Hp. destruct g as [|g]; [lia|]. cbn [join_loop].
+    destruct Hp as [Hp|Hp]; head_cases post; cbn [is_comma hrank] in Hp; try discriminate Hp; try lia; reflexivity.
+  Qed.
+
+  Lemma join_rt o r rest g :
+    jop_wf d o = true -> tref_wf d r = true -> (tlevel r <= f)%nat -> jfol rest ->
+    qfrag d (join_toks (Join o r) ++ rest) = true ->
+    join_loop d recq rect (S g) (join_toks (Join o r) ++ rest) =
+    bind (join_loop d recq rect g rest) (fun '(js, r4) => Ok (Join o r :: js, r4)).
+  Proof.
+    intros Hw Hrw Hl Hp Hf. cbn [join_toks] in *. rewrite <- !app_assoc in *.
+    destruct o as [|k c].
+    - cbn [jop_pre jop_suf app] in *. cbn [join_loop].
+      rewrite tref_rt; [reflexivity|exact Hrw|exact Hl| |apply jfol_tfol; exact Hp].
+      do 2 apply qfrag_cons in Hf. exact Hf.
+    - assert (Hpre : jop_pre (JOp k c) = (match c with JNatural => [QK KNatural] | _ => [] end) ++ jkind_toks k)
+        by (destruct c; reflexivity).
+      rewrite Hpre in *. rewrite <- !app_assoc in *.
+      assert (Htf : tfol (jop_suf (JOp k c) ++ rest)).
+      { destruct c; cbn [jop_suf app]; try (apply jfol_tfol; exact Hp); right; reflexivity. }
+      assert (Hf2 : qfrag d (tref_toks r ++ jop_suf (JOp k c) ++ rest) = true).
+      { apply qfrag_app in Hf. apply qfrag_app in Hf. exact Hf. }
+      assert (Hf3 : qfrag d (jop_suf (JOp k c) ++ rest) = true) by (apply qfrag_app in Hf2; exact Hf2).
+      pose proof (jcons_rt k c rest Hw Hp Hf3) as Hc.
+      destruct c as [e|cols| |]; destruct k;
+        cbn [app jkind_toks join_loop opt_tok qtok_eqb qkw_beq parse_jkind expect_join bind];
+        (rewrite tref_rt by assumption); cbn [bind]; rewrite Hc; reflexivity.
+  Qed.
+
+  Lemma joins_rt js : forall post g,
+    forallb (join_wf d) js = true -> Forall (fun j => (jlevel j <= f)%nat) js ->
+    qfrag d (concat (map join_toks js) ++ post) = true -> fol 2 post -> (length js < g)%nat ->
+    join_loop d recq rect g (concat (map join_toks js) ++ post) = Ok (js, post).
+  Proof.
+    induction js as [|[o r] js IH]; intros post g Hw Hl Hf Hp Hg.
+    - apply join_loop_end; [lia|exact Hp].
+    - destruct g as [|g]; [lia|]. cbn [map concat] in *. rewrite <- app_assoc in *.
+      cbn [forallb join_wf] in Hw. apply andb_true_iff in Hw. destruct Hw as [Hw Hws].
+      apply andb_true_iff in Hw. destruct Hw as [How Hrw]. inversion Hl as [|? ? Hl1 Hl2]; subst. cbn [jlevel] in Hl1.
+      rewrite join_rt; [|exact How|exact Hrw|exact Hl1|apply joins_jfol; exact Hp|exact Hf].
+      rewrite IH; [reflexivity|exact Hws|exact Hl2|eapply qfrag_app; exact Hf|exact Hp|cbn [length] in Hg; lia].
+  Qed.
+
+  Lemma twj_rt t post :
+    twj_wf d t = true -> (twjlevel t <= f)%nat -> qfrag d (twj_toks t ++ post) = true -> fol 2 post ->
+    twj_step d recq rect (twj_toks t ++ post) = Ok (t, post).
+  Proof.
+    destruct t as [r js]. cbn [twj_wf twjlevel twj_toks]. intros Hw Hl Hf Hp.
+    apply andb_true_iff in Hw. destruct Hw as [Hrw Hjw]. rewrite <- app_assoc in *. unfold twj_step.
+    rewrite tref_rt; [|exact Hrw|lia|exact Hf|apply jfol_tfol, joins_jfol; exact Hp]. cbn [bind].
+    rewrite joins_rt; [reflexivity|exact Hjw| |eapply qfrag_app; exact Hf|exact Hp|].
+    - apply maxl_map_le. lia.
+    - pose proof (joins_length js post). lia.
+  Qed.
+
+  Lemma notrail_twj t r :
+    twj_wf d t = true -> twj_head_ok d t = true -> notrail (trail_all d) (twj_toks t ++ r).
+  Proof.
+    destruct t as [[n a|q a|x a] js]; cbn [twj_wf tref_wf twj_head_ok twj_toks tref_toks]; intros Hw Hl;
+      rewrite <- ?app_assoc; cbn [app].
+    - apply notrail_word; [|exact Hl]. apply andb_true_iff in Hw. destruct Hw as [Hw _].
+      apply andb_true_iff in Hw. destruct Hw as [Hw _]. unfold name_ok in Hw. apply andb_true_iff in Hw. tauto.
+    - apply notrail_lparen.
+    - apply notrail_lparen.
+  Qed.
+
+  Lemma twjs_rt from post g :
+    from <> [] -> forallb (twj_wf d) from = true -> later_names_ok d from = true ->
+    Forall (fun t => (twjlevel t <= f)%nat) from ->
+    qfrag d (sepc (map twj_toks from) ++ post) = true -> (2 <= hrank post)%nat -> (length from <= g)%nat ->
+    comma_list (twj_step d recq rect) (trail_all d) g (sepc (map twj_toks from) ++ post) = Ok (from, post).
   Proof.
     intros Hne Hw Hln Hlv Hf Hr Hg. apply comma_list_rt; auto.
-    - eapply (elems_ok_build _ _ _ (fun t => tref_wf d t && Nat.leb (tlevel t) f) 2); eauto.
+    - eapply (elems_ok_build _ _ _ (fun t => twj_wf d t && Nat.leb (twjlevel t) f) (fol 2)); eauto using fol_comma.
       + intros x post' Hx Hqf Hp. apply andb_true_iff in Hx. destruct Hx as [Hx1 Hx2]. apply PeanoNat.Nat.leb_le in Hx2.
-        apply tref_rt; auto.
+        apply twj_rt; auto.
       + rewrite forallb_forall in *. intros x Hin. rewrite (Hw x Hin). rewrite Forall_forall in Hlv.
         apply PeanoNat.Nat.leb_le. auto.
       + destruct from as [|t0 r0]; [constructor|]. cbn [tl later_names_ok] in *.
         apply Forall_forall. intros x Hin r. rewrite forallb_forall in Hw, Hln.
-        apply notrail_tref; [apply Hw; right; exact Hin|]. specialize (Hln x Hin). destruct x; exact Hln.
+        apply notrail_twj; [apply Hw; right; exact Hin|apply Hln; exact Hin].
+      + right; exact Hr.
     - eapply hrank_not_comma; [|exact Hr]. lia.
   Qed.
 
@@ -854,7 +1235,7 @@ Section RoundTrip.
     optb (ewf bd) x = true -> qfrag d (clause_toks k x ++ post) = true -> (S n <= hrank post)%nat ->
     opt_clause d k (clause_toks k x ++ post) = Ok (x, post).
   Proof.
-    intros Hk Hn Hkk Hw Hf Hr. destruct x as [e|]; cbn [clause_toks optb app] in *.
+    intros Hk Hn' Hkk Hw Hf Hr. destruct x as [e|]; cbn [clause_toks optb app] in *.
     - rewrite (ewf_ptoks _ _ Hw) in *. cbn [opt_clause].
       assert (Hkk' : qtok_eqb k k = true) by (destruct Hkk; subst; reflexivity). rewrite Hkk'.
       rewrite pex_rt; [reflexivity|assumption|eapply qfrag_cons; eauto|apply hrank_estop; lia].
@@ -862,17 +1243,17 @@ Section RoundTrip.
   Qed.
 
   Lemma from_rt from post :
-    forallb (tref_wf d) from = true -> later_names_ok d from = true ->
-    Forall (fun t => (tlevel t <= f)%nat) from ->
-    qfrag d (from_toks (map tref_toks from) ++ post) = true -> (2 <= hrank post)%nat ->
-    parse_from d recq (from_toks (map tref_toks from) ++ post) = Ok (from, post).
+    forallb (twj_wf d) from = true -> later_names_ok d from = true ->
+    Forall (fun t => (twjlevel t <= f)%nat) from ->
+    qfrag d (from_toks (map twj_toks from) ++ post) = true -> (2 <= hrank post)%nat ->
+    parse_from d recq rect (from_toks (map twj_toks from) ++ post) = Ok (from, post).
   Proof.
     intros Hw Hl Hlv Hf Hr. unfold parse_from. destruct from as [|t0 r0].
     - cbn [map from_toks app]. rewrite opt_from_miss by assumption. reflexivity.
-    - change (from_toks (map tref_toks (t0 :: r0)) ++ post)
-        with (QE (TKw KFrom) :: sepc (map tref_toks (t0 :: r0)) ++ post) in *.
+    - change (from_toks (map twj_toks (t0 :: r0)) ++ post)
+        with (QE (TKw KFrom) :: sepc (map twj_toks (t0 :: r0)) ++ post) in *.
       rewrite opt_tok_hit by reflexivity.
-      apply trefs_rt; [discriminate|exact Hw|exact Hl|exact Hlv|eapply qfrag_cons; eauto|exact Hr|apply fuel_commas].
+      apply twjs_rt; [discriminate|exact Hw|exact Hl|exact Hlv|eapply qfrag_cons; eauto|exact Hr|apply fuel_commas].
   Qed.
 
   Lemma group_rt gb post :
@@ -887,7 +1268,8 @@ Section RoundTrip.
         with (true, sepc (map (fun e => qe (ptoks e)) (e0 :: r0)) ++ post).
       destruct (exprs_head (e0 :: r0) post ltac:(discriminate) Hw) as (t & r & E & St).
       rewrite E at 1. rewrite opt_start_miss by auto. cbn [fst].
-      apply exprs_rt; [discriminate|exact Hw|do 2 (eapply qfrag_cons in Hf); exact Hf|exact Hr|apply fuel_commas].
+      rewrite exprs_rt; [|discriminate|exact Hw|do 2 (eapply qfrag_cons in Hf); exact Hf|exact Hr|apply fuel_commas].
+      cbn [bind]. rewrite opt_with_miss by lia. cbn [fst]. rewrite andb_false_r. reflexivity.
   Qed.
 
   Lemma order_rt ob post :
@@ -908,23 +1290,25 @@ Section RoundTrip.
     (exists t r, ts2 = QE t :: r /\ (starts t = true \/ t = TOp K_Mul)) ->
     fst (opt_tok (QK KAs) (dist_toks dist ++ ts2)) = false /\
     opt_tok (QE (TKw KAll)) (dist_toks dist ++ ts2) = (false, dist_toks dist ++ ts2) /\
-    opt_tok (QE (TKw KDistinct)) (dist_toks dist ++ ts2) = (dist, ts2).
+    opt_tok (QE (TKw KDistinct)) (dist_toks dist ++ ts2) = (dist, ts2) /\
+    fst (opt_tok (QK KOn) ts2) = false.
   Proof.
-    intros (t & r & E & St). destruct dist; cbn [dist_toks app].
+    intros (t & r & E & St). subst ts2. rewrite (opt_start_miss (QK KOn)) by auto.
+    destruct dist; cbn [dist_toks app].
     - repeat split; reflexivity.
-    - subst ts2. rewrite !opt_start_miss by auto. repeat split; reflexivity.
+    - rewrite !opt_start_miss by auto. repeat split; reflexivity.
   Qed.
 
   Lemma hrank_clause k x post n :
     (n <= hrank [k])%nat -> (n <= hrank post)%nat -> (n <= hrank (clause_toks k x ++ post))%nat.
   Proof. destruct x; cbn [clause_toks app]; auto. Qed.
 
-  Lemma select_ranks from wh gb hv post :
+  Lemma select_ranks (from : list twj) wh gb hv post :
     (5 <= hrank post)%nat ->
     (4 <= hrank (clause_toks (QK KHaving) hv ++ post))%nat /\
     (3 <= hrank (group_toks gb ++ clause_toks (QK KHaving) hv ++ post))%nat /\
     (2 <= hrank (clause_toks (QK KWhere) wh ++ group_toks gb ++ clause_toks (QK KHaving) hv ++ post))%nat /\
-    (1 <= hrank (from_toks (map tref_toks from) ++ clause_toks (QK KWhere) wh ++ group_toks gb ++
+    (1 <= hrank (from_toks (map twj_toks from) ++ clause_toks (QK KWhere) wh ++ group_toks gb ++
                  clause_toks (QK KHaving) hv ++ post))%nat.
   Proof.
     intro Hr.
@@ -953,19 +1337,17 @@ Section RoundTrip.
     bwf d (BSelect dist items from wh gb hv) = true ->
     (blevel (BSelect dist items from wh gb hv) <= S f)%nat ->
     (5 <= hrank post)%nat -> qfrag d (btoks (BSelect dist items from wh gb hv) ++ post) = true ->
-    parse_operand d recq (btoks (BSelect dist items from wh gb hv) ++ post) = Ok (BSelect dist items from wh gb hv, post).
+    parse_operand d recq rect (btoks (BSelect dist items from wh gb hv) ++ post) = Ok (BSelect dist items from wh gb hv, post).
   Proof.
     intros Hw Hl Hr Hf. rewrite bwf_select in Hw. rewrite blevel_select in Hl. rewrite btoks_select in *.
     repeat (apply andb_true_iff in Hw; destruct Hw as [Hw ?]).
-    assert (Hlv : Forall (fun t => (tlevel t <= f)%nat) from).
-    { assert (Hl' : (maxl (map tlevel from) <= f)%nat) by (apply le_S_n; exact Hl). apply maxl_le in Hl'.
-      rewrite Forall_forall in *. intros t Hin. apply Hl'. apply in_map. exact Hin. }
+    assert (Hlv : Forall (fun t => (twjlevel t <= f)%nat) from) by (apply maxl_map_le; lia).
     cbn [app parse_operand]. cbn [app] in Hf. apply qfrag_cons in Hf.
     repeat rewrite <- app_assoc in *.
     set (T6 := clause_toks (QK KHaving) hv ++ post) in *.
     set (T5 := group_toks gb ++ T6) in *.
     set (T4 := clause_toks (QK KWhere) wh ++ T5) in *.
-    set (T3 := from_toks (map tref_toks from) ++ T4) in *.
+    set (T3 := from_toks (map twj_toks from) ++ T4) in *.
     set (ts2 := sepc (map item_toks items) ++ T3) in *.
     destruct (select_ranks from wh gb hv post Hr) as (R6 & R5 & R4 & R3).
     change (4 <= hrank T6)%nat in R6. change (3 <= hrank T5)%nat in R5. change (2 <= hrank T4)%nat in R4. change (1 <= hrank T3)%nat in R3.
@@ -975,8 +1357,8 @@ Section RoundTrip.
     assert (F4 : qfrag d T4 = true) by (eapply qfrag_app; exact F3).
     assert (F5 : qfrag d T5 = true) by (eapply qfrag_app; exact F4).
     assert (F6 : qfrag d T6 = true) by (eapply qfrag_app; exact F5).
-    destruct (select_prefix dist ts2 (items_head items T3 Hne ltac:(assumption))) as (P1 & P2 & P3).
-    unfold parse_select. rewrite P1, P2, P3. cbn [andb].
+    destruct (select_prefix dist ts2 (items_head items T3 Hne ltac:(assumption))) as (P1 & P2 & P3 & P4).
+    unfold parse_select. rewrite P1, P2, P3, P4. cbn [andb]. rewrite andb_false_r.
     assert (Hpt : proj_trailing d && comma_rparen ts2 = false).
     { destruct (proj_trailing d) eqn:T; [|reflexivity]. cbn [andb]. eapply qfrag_trail; eauto. }
     rewrite Hpt.
@@ -991,7 +1373,7 @@ Section RoundTrip.
 
   Lemma nested_rt q post :
     qwf d q = true -> (qlevel q <= f)%nat -> qfrag d (btoks (BNested q) ++ post) = true ->
-    parse_operand d recq (btoks (BNested q) ++ post) = Ok (BNested q, post).
+    parse_operand d recq rect (btoks (BNested q) ++ post) = Ok (BNested q, post).
   Proof.
     intros Hw Hl Hf. rewrite btoks_nested in *. cbn [app parse_operand] in *. rewrite <- app_assoc in *. cbn [app] in *.
     rewrite Hq; auto. eapply qfrag_cons; eauto.
@@ -1019,7 +1401,7 @@ Section RoundTrip.
     bwf d b = true -> (blevel b <= S f)%nat -> blspine_gtb p b = true ->
     brspine_geb (headpow post) b = true -> (5 <= hrank post)%nat -> qfrag d (btoks b ++ post) = true ->
     exists g, (length post < g)%nat /\
-      body_step d recq recb p (btoks b ++ post) = bloop recb g p b post.
+      body_step d recq recb rect p (btoks b ++ post) = bloop recb g p b post.
   Proof.
     induction b as [dist items from wh gb hv|o q l IHl r IHr|q]; intros p post Hw Hl Hls Hrs Hr Hf.
     - exists (S (length post)). split; [lia|]. unfold body_step. rewrite select_rt; auto.
@@ -1047,7 +1429,7 @@ Section RoundTrip.
   Lemma body_rt b p post :
     bwf d b = true -> (blevel b <= S f)%nat -> blspine_gtb p b = true -> headpow post <= p ->
     brspine_geb (headpow post) b = true -> (5 <= hrank post)%nat -> qfrag d (btoks b ++ post) = true ->
-    body_step d recq recb p (btoks b ++ post) = Ok (b, post).
+    body_step d recq recb rect p (btoks b ++ post) = Ok (b, post).
   Proof.
     intros Hw Hl Hls Hp Hrs Hr Hf.
     destruct (body_as_loop b p post Hw Hl Hls Hrs Hr Hf) as (g & Hg & E). rewrite E.
@@ -1089,36 +1471,179 @@ Section RoundTrip.
     rewrite opt_comma_miss by lia. rewrite andb_false_r. reflexivity.
   Qed.
 
+  (** ** WITH *)
+  (** what follows a CTE: a comma or the query body *)
+  Definition cfol (post : list qtok) : Prop := is_comma post = true \/ bstart post = true.
+
+  Lemma cfol_from {B} post (X Y : res B) :
+    cfol post -> match post with QE (TKw KFrom) :: _ => X | _ => Y end = Y.
+  Proof.
+    intros [Hp|Hp]; destruct post as [|[[]| | |] ?]; cbn [is_comma bstart] in Hp; try discriminate Hp; reflexivity.
+  Qed.
+
+  Lemma cte_body_rt n cs q post :
+    qwf d q = true -> (qlevel q <= f)%nat -> cfol post ->
+    qfrag d (QE TLParen :: qtoks q ++ QE TRParen :: post) = true ->
+    parse_cte_body recq n cs (QE TLParen :: qtoks q ++ QE TRParen :: post) = Ok (Cte n cs q, post).
+  Proof.
+    intros Hqw Hl Hp Hf. unfold parse_cte_body. rewrite Hq; [|exact Hqw|exact Hl|reflexivity|eapply qfrag_cons; exact Hf].
+    cbn [bind]. apply cfol_from. exact Hp.
+  Qed.
+
+  Lemma cte_rt c post :
+    cte_wf d c = true -> (clevel c <= f)%nat -> qfrag d (cte_toks c ++ post) = true -> cfol post ->
+    parse_cte d recq (cte_toks c ++ post) = Ok (c, post).
+  Proof.
+    destruct c as [n cols q]. cbn [cte_wf clevel cte_toks]. intros Hw Hl Hf Hp.
+    apply andb_true_iff in Hw. destruct Hw as [Hw Hqw]. apply andb_true_iff in Hw. destruct Hw as [Hn' Hc].
+    unfold parse_cte. cbn [app]. unfold parse_ident at 1. rewrite Hn'. cbn [bind].
+    cbn [app] in Hf. apply qfrag_cons in Hf.
+    destruct cols as [|c0 cr].
+    - cbn [ccols_toks app] in *. rewrite <- app_assoc in *. cbn [app] in *.
+      apply cte_body_rt; [exact Hqw|exact Hl|exact Hp|]. eapply qfrag_cons; exact Hf.
+    - cbn [ccols_toks ccols_wf] in *. unfold cols_toks in *. cbn [app] in *. rewrite <- !app_assoc in *. cbn [app] in *.
+      rewrite cols_rt by exact Hc. cbn [bind].
+      replace ((qtoks q ++ [QE TRParen]) ++ post) with (qtoks q ++ QE TRParen :: post) in * by (rewrite <- app_assoc; reflexivity).
+      apply cte_body_rt; [exact Hqw|exact Hl|exact Hp|].
+      apply qfrag_cons in Hf. apply qfrag_app in Hf. do 2 apply qfrag_cons in Hf. exact Hf.
+  Qed.
+
+  Lemma notrail_cte c r : cte_wf d c = true -> later_ok d (cte_name c) = true -> notrail (trail_all d) (cte_toks c ++ r).
+  Proof.
+    destruct c as [n cols q]. cbn [cte_wf cte_name cte_toks app]. intros Hw Hl.
+    apply andb_true_iff in Hw. destruct Hw as [Hw _]. apply andb_true_iff in Hw. destruct Hw as [Hn' _].
+    apply notrail_word; assumption.
+  Qed.
+
+  Lemma with_rt w X :
+    wwf d w = true -> (match w with Some x => (wlevel x <= f)%nat | None => True end) ->
+    qfrag d (wtoks w ++ X) = true -> bstart X = true ->
+    parse_with d recq (wtoks w ++ X) = Ok (w, X).
+  Proof.
+    intros Hw Hl Hf Hx. destruct w as [[rc ctes]|]; cbn [wwf wtoks with_toks with_wf wlevel] in *.
+    - apply andb_true_iff in Hw. destruct Hw as [Hnm Hcw]. unfold with_names_ok in Hnm.
+      destruct ctes as [|c0 cr]; [discriminate|]. apply andb_true_iff in Hnm. destruct Hnm as [Hrec Hlater].
+      cbn [app parse_with]. rewrite <- app_assoc. cbn [app] in Hf. apply qfrag_cons in Hf. rewrite <- app_assoc in Hf.
+      assert (Hopt : opt_tok (QK KRecursive) (rec_toks rc ++ sepc (map cte_toks (c0 :: cr)) ++ X)
+                     = (rc, sepc (map cte_toks (c0 :: cr)) ++ X)).
+      { destruct rc; cbn [rec_toks app]; [reflexivity|]. cbn [orb negb] in Hrec. apply negb_true_iff in Hrec.
+        rewrite sepc_follow. destruct c0 as [n cols q]. cbn [cte_toks app cte_name] in *. cbn [opt_tok]. rewrite Hrec. reflexivity. }
+      rewrite Hopt.
+      rewrite comma_list_rt; [reflexivity|discriminate| | |apply fuel_commas].
+      + eapply (elems_ok_build _ _ _ (fun c => cte_wf d c && Nat.leb (clevel c) f) cfol).
+        * intro r. left. reflexivity.
+        * intros x post' Hx' Hqf Hp. apply andb_true_iff in Hx'. destruct Hx' as [Hx1 Hx2]. apply PeanoNat.Nat.leb_le in Hx2.
+          apply cte_rt; auto.
+        * apply maxl_map_le in Hl. rewrite forallb_forall in *. intros x Hin. rewrite (Hcw x Hin).
+          rewrite Forall_forall in Hl. apply PeanoNat.Nat.leb_le. auto.
+        * cbn [tl]. apply Forall_forall. intros x Hin r. rewrite forallb_forall in Hcw, Hlater.
+          apply notrail_cte; [apply Hcw; right; exact Hin|apply Hlater; exact Hin].
+        * apply qfrag_app in Hf. exact Hf.
+        * right. exact Hx.
+      + destruct X as [|[[]|[]| |] ?]; try discriminate Hx; reflexivity.
+    - cbn [app]. destruct X as [|[[]|[]| |] ?]; try discriminate Hx; reflexivity.
+  Qed.
+
   (** ** the query *)
   Lemma query_rt q post :
     qwf d q = true -> (qlevel q <= S f)%nat -> ender post = true -> qfrag d (qtoks q ++ post) = true ->
-    query_step d recq recb (qtoks q ++ post) = Ok (q, post).
+    query_step d recq recb rect (qtoks q ++ post) = Ok (q, post).
   Proof.
-    destruct q as [b ob lim off]. unfold qlevel. cbn [qwf body qtoks]. intros Hw Hl He Hf.
-    apply andb_true_iff in Hw. destruct Hw as [Hbw Ht]. unfold tail_wf in Ht.
-    apply andb_true_iff in Ht. destruct Ht as [Ht Hoff]. apply andb_true_iff in Ht. destruct Ht as [Hob Hlim].
+    destruct q as [w b ob lim off]. rewrite qwf_query, qtoks_query. cbn [qlevel]. intros Hw Hl He Hf.
+    apply andb_true_iff in Hw. destruct Hw as [Hw Ht']. apply andb_true_iff in Hw. destruct Hw as [Hww Hbw].
+    unfold tail_wf in Ht'.
+    apply andb_true_iff in Ht'. destruct Ht' as [Ht' Hoff]. apply andb_true_iff in Ht'. destruct Ht' as [Hob Hlim].
     pose proof (ender_hrank _ He) as Hr. repeat rewrite <- app_assoc in *.
     set (T3 := clause_toks (QK KOffset) off ++ post) in *.
     set (T2 := clause_toks (QK KLimit) lim ++ T3) in *.
     set (T1 := order_toks ob ++ T2) in *.
     destruct (tail_ranks ob lim off post Hr) as (R3 & R2 & R1).
     change (8 <= hrank T3)%nat in R3. change (7 <= hrank T2)%nat in R2. change (6 <= hrank T1)%nat in R1.
-    assert (F1 : qfrag d T1 = true) by (eapply qfrag_app; exact Hf).
+    assert (F0 : qfrag d (btoks b ++ T1) = true) by (eapply qfrag_app; exact Hf).
+    assert (F1 : qfrag d T1 = true) by (eapply qfrag_app; exact F0).
     assert (F2 : qfrag d T2 = true) by (eapply qfrag_app; exact F1).
     assert (H0 : headpow T1 = 0) by (unfold headpow; rewrite set_op_miss by exact R1; reflexivity).
-    unfold query_step. rewrite (d_U0 d Hd).
-    rewrite body_rt; [|assumption|assumption|apply blspine_gtb_0|rewrite H0; apply N.le_refl|rewrite H0; apply brspine_geb_0|
-                      apply (PeanoNat.Nat.le_trans _ 6); [repeat constructor|exact R1]|exact Hf].
+    unfold query_step.
+    rewrite with_rt; [|exact Hww|destruct w; [lia|exact I]|exact Hf|apply btoks_bstart]. cbn [bind].
+    rewrite (d_U0 d Hd).
+    rewrite body_rt; [|assumption|lia|apply blspine_gtb_0|rewrite H0; apply N.le_refl|rewrite H0; apply brspine_geb_0|
+                      apply (PeanoNat.Nat.le_trans _ 6); [repeat constructor|exact R1]|exact F0].
     cbn [bind]. unfold T1. rewrite order_rt; [|assumption|exact F1|exact R2]. cbn [bind].
     unfold T2, T3. rewrite limit_iter_first; [|assumption|assumption|exact He|exact F2]. cbn [bind].
     rewrite limit_iter_again by exact He. cbn [bind fst snd].
-    rewrite opt_by_miss; [|rewrite Hr; repeat constructor]. cbn [fst]. rewrite andb_false_r. reflexivity.
+    rewrite opt_by_miss; [|rewrite Hr; repeat constructor]. cbn [fst]. rewrite !andb_false_r. reflexivity.
+  Qed.
+
+  (** ** what [parse_query] makes of the tokens of a parenthesised join: no query followed by [)] *)
+  Lemma query_step_word n X : is_word n = true -> starter n = false -> query_step d recq recb rect (n :: X) = Err.
+  Proof. destruct n as [[]|[]| |]; cbn [is_word]; intros H1 H2; try discriminate H1; try discriminate H2; reflexivity. Qed.
+
+  Lemma inert_misses rest : inert rest = true ->
+    opt_tok2 (QK KOrder) (QK KBy) rest = (false, rest) /\ opt_tok (QK KLimit) rest = (false, rest) /\
+    opt_tok (QK KOffset) rest = (false, rest) /\ opt_tok (QK KBy) rest = (false, rest).
+  Proof.
+    intro H. qhead rest; cbn [inert jstart] in H; try discriminate H; repeat split; try reflexivity.
+    all: match goal with |- opt_tok2 _ _ (_ :: ?l) = _ => destruct l; reflexivity end.
+  Qed.
+
+  Lemma inert_tail w b rest :
+    inert rest = true ->
+    bind (parse_order_by d rest) (fun '(ob, ts2) =>
+    bind (limit_iter d (None, None) ts2) (fun '(st1, ts3) =>
+    bind (limit_iter d st1 ts3) (fun '(st2, ts4) =>
+      if limit_by d && (is_some (fst st2) && fst (opt_tok (QK KBy) ts4)) then OutOfFragment
+      else Ok (Query w b ob (fst st2) (snd st2), ts4)))) = Ok (Query w b [] None None, rest).
+  Proof.
+    intro H. destruct (inert_misses rest H) as (M1 & M2 & M3 & M4).
+    unfold parse_order_by. rewrite M1. cbn [bind].
+    unfold limit_iter. rewrite M2. cbn [bind]. rewrite M3. cbn [bind]. rewrite M2. cbn [bind]. rewrite M3. cbn [bind].
+    rewrite M4. cbn [fst snd is_some andb]. rewrite andb_false_r. reflexivity.
+  Qed.
+
+  Lemma bloop_inert g p e rest : inert rest = true -> (0 < g)%nat -> bloop recb g p e rest = Ok (e, rest).
+  Proof.
+    intros H Hg. apply bloop_stop; [exact Hg|]. unfold headpow.
+    qhead rest; cbn [inert jstart] in H; try discriminate H; cbn [set_op_of]; lia.
+  Qed.
+
+  Lemma notq_nested (x : res (query * list qtok)) :
+    notq x ->
+    bind x (fun '(q, r1) => match r1 with QE TRParen :: r2 => Ok (BNested q, r2) | _ => Err end) = Err.
+  Proof. destruct x as [[q0 [|[[]| | |] r0]]| | |]; cbn [notq bind]; intro H; try reflexivity; contradiction. Qed.
+
+  Lemma notq_step r post :
+    tref_wf d r = true -> first_ok r = true -> (tlevel r <= f)%nat ->
+    (bare_derived r = true -> jstart post = true) -> qfrag d (tref_toks r ++ post) = true ->
+    notq (query_step d recq recb rect (tref_toks r ++ post)).
+  Proof.
+    intros Hw Hfi Hl Hbd Hf. destruct r as [n a|q a|x a]; cbn [tref_wf tref_toks tlevel first_ok] in *.
+    - apply andb_true_iff in Hw. destruct Hw as [Hw _]. unfold name_ok in Hw. apply andb_true_iff in Hw. destruct Hw as [Hw _].
+      apply negb_true_iff in Hfi. cbn [app]. rewrite query_step_word by assumption. exact I.
+    - apply andb_true_iff in Hw. destruct Hw as [Hqw Ha]. cbn [app] in *. rewrite <- app_assoc in *. cbn [app] in *.
+      assert (Hin : inert (alias_toks a ++ post) = true).
+      { destruct a; [reflexivity|]. cbn [alias_toks app]. pose proof (Hbd eq_refl) as Hj.
+        qhead post; cbn [jstart] in Hj; try discriminate Hj; reflexivity. }
+      unfold query_step. cbn [parse_with bind]. unfold body_step. cbn [parse_operand].
+      rewrite Hq; [|exact Hqw|exact Hl|reflexivity|eapply qfrag_cons; exact Hf]. cbn [bind].
+      rewrite bloop_inert; [|exact Hin|lia]. cbn [bind]. rewrite inert_tail by exact Hin.
+      cbn [notq]. destruct (alias_toks a ++ post) as [|[[]| | |] ?]; try exact I. discriminate Hin.
+    - apply andb_true_iff in Hw. destruct Hw as [Hw Ha]. apply andb_true_iff in Hw. destruct Hw as [Hxw Hno].
+      unfold nested_ok in Hno. apply andb_true_iff in Hno. destruct Hno as [Hsh Hfi'].
+      destruct x as [r' js]. cbn [twj_toks twj_wf twjlevel first_of] in *. cbn [app] in *. rewrite <- !app_assoc in *.
+      apply andb_true_iff in Hxw. destruct Hxw as [Hrw _].
+      unfold query_step. cbn [parse_with bind]. unfold body_step. cbn [parse_operand].
+      rewrite notq_nested; [exact I|].
+      apply Hn; [exact Hrw|exact Hfi'|lia| |eapply qfrag_cons; exact Hf].
+      intro Hb'. apply jstart_joins. destruct r' as [| q0 [a0|]|]; try discriminate Hb'.
+      destruct js; [discriminate Hsh|discriminate].
   Qed.
 End RoundTrip.
 
 (** * Tying the knot: all nesting levels *)
 Lemma blevel_pos b : (1 <= blevel b)%nat.
 Proof. induction b as [dist items from wh gb hv|o q l IHl r IHr|q]; [rewrite blevel_select|cbn [blevel]|rewrite blevel_nested]; lia. Qed.
+Lemma qlevel_pos q : (1 <= qlevel q)%nat.
+Proof. destruct q as [w b ob lim off]. cbn [qlevel]. pose proof (blevel_pos b). lia. Qed.
 
 Section Knot.
   Variable d : qdialect.
@@ -1129,17 +1654,28 @@ Section Knot.
        parse_query d f (qtoks q ++ post) = Ok (q, post)) /\
     (forall b p post, bwf d b = true -> (blevel b <= f)%nat -> blspine_gtb p b = true -> headpow post <= p ->
        brspine_geb (headpow post) b = true -> (5 <= hrank post)%nat -> qfrag d (btoks b ++ post) = true ->
-       parse_body d f p (btoks b ++ post) = Ok (b, post)).
+       parse_body d f p (btoks b ++ post) = Ok (b, post)) /\
+    (forall t post, twj_wf d t = true -> (S (twjlevel t) <= f)%nat -> qfrag d (twj_toks t ++ post) = true ->
+       fol 2 post -> parse_twj d f (twj_toks t ++ post) = Ok (t, post)) /\
+    (forall r post, tref_wf d r = true -> first_ok r = true -> (S (tlevel r) <= f)%nat ->
+       (bare_derived r = true -> jstart post = true) -> qfrag d (tref_toks r ++ post) = true ->
+       notq (parse_query d f (tref_toks r ++ post))).
   Proof.
-    induction f as [|f [IHq IHb]].
-    - split.
-      + intros q post _ Hl. unfold qlevel in Hl. pose proof (blevel_pos (body q)). lia.
+    induction f as [|f (IHq & IHb & IHt & IHn)].
+    - repeat split.
+      + intros q post _ Hl. pose proof (qlevel_pos q). lia.
       + intros b p post _ Hl. pose proof (blevel_pos b). lia.
-    - split.
-      + intros q post Hw Hl He Hf. unfold parse_query. cbn [parse_lvl fst].
+      + intros t post _ Hl. lia.
+      + intros r post _ _ Hl. lia.
+    - repeat split.
+      + intros q post Hw Hl He Hf. unfold parse_query. cbn [parse_lvl pq].
         apply (query_rt d Hd f); auto.
-      + intros b p post Hw Hl Hls Hp Hrs Hr Hf. unfold parse_body. cbn [parse_lvl snd].
+      + intros b p post Hw Hl Hls Hp Hrs Hr Hf. unfold parse_body. cbn [parse_lvl pb].
         apply (body_rt d Hd f); auto.
+      + intros t post Hw Hl Hf Hp. unfold parse_twj. cbn [parse_lvl pt].
+        apply (twj_rt d Hd f (pq (parse_lvl d f)) (pb (parse_lvl d f)) (pt (parse_lvl d f))); auto. lia.
+      + intros r post Hw Hfi Hl Hbd Hf. unfold parse_query. cbn [parse_lvl pq].
+        apply (notq_step d Hd f (pq (parse_lvl d f)) (pb (parse_lvl d f)) (pt (parse_lvl d f))); auto. lia.
   Qed.
 
   (** The round trip of the query core: for every well-formed query tree [q] whose printed tokens
@@ -1155,7 +1691,15 @@ Section Knot.
     bwf d b = true -> blspine_gtb p b = true -> headpow rest <= p -> brspine_geb (headpow rest) b = true ->
     (5 <= hrank rest)%nat -> qfrag d (btoks b ++ rest) = true -> (blevel b <= fuel)%nat ->
     parse_body d fuel p (btoks b ++ rest) = Ok (b, rest).
-  Proof. intros. apply (proj2 (parse_lvl_rt fuel)); assumption. Qed.
+  Proof. intros. apply (proj1 (proj2 (parse_lvl_rt fuel))); assumption. Qed.
+
+  (** the same for one element of FROM (a table with its joins); what follows is a comma or the end
+      of the FROM clause (WHERE GROUP HAVING, a set operator, ORDER LIMIT OFFSET, [)] [;] or the end) *)
+  Theorem twj_roundtrip t rest fuel :
+    twj_wf d t = true -> qfrag d (twj_toks t ++ rest) = true ->
+    (is_comma rest = true \/ (2 <= hrank rest)%nat) -> (S (twjlevel t) <= fuel)%nat ->
+    parse_twj d fuel (twj_toks t ++ rest) = Ok (t, rest).
+  Proof. intros. apply (proj1 (proj2 (proj2 (parse_lvl_rt fuel)))); assumption. Qed.
 
   (** printing is injective on well-formed queries *)
   Theorem qtoks_injective q1 q2 :
